@@ -454,3 +454,309 @@ Proof.
   exfalso. specialize (Hge k Hck). apply read_vertices_bin_consumes in Hge. destruct Hge as [Hge _].
   rewrite firstn_length in Hge. lia.
 Qed.
+
+(* ================================================================== ASCII PLY: cuts at line boundaries *)
+Lemma sp_read_vertices_ascii bs np : forall n, stream_parser (fun lines => read_vertices_ascii bs np lines n).
+Proof.
+  intros n l. revert n. induction l as [|x l IH]; intros n a rest H.
+  - destruct n; cbn [read_vertices_ascii] in H; [|discriminate].
+    assert (a = [] /\ rest = []) as [-> ->] by (split; congruence).
+    exists 0%nat. split; [simpl; lia|]. split; [reflexivity|]. split; intros k Hk; [lia|].
+    rewrite firstn_nil. reflexivity.
+  - destruct n as [|n].
+    + cbn [read_vertices_ascii] in H. assert (a = [] /\ rest = x :: l) as [-> ->] by (split; congruence).
+      exists 0%nat. split; [simpl; lia|]. split; [reflexivity|]. split; intros k Hk; [lia|].
+      cbn [skipn]. destruct k; reflexivity.
+    + cbn [read_vertices_ascii] in H. destruct x as [|t ts].
+      * destruct (IH (S n) a rest H) as (c & Hc & Hr & Hlt & Hge).
+        exists (S c). split; [simpl; lia|]. split; [exact Hr|]. split; intros k Hk.
+        -- destruct k as [|k]; [reflexivity|]. cbn [firstn read_vertices_ascii]. apply Hlt. lia.
+        -- destruct k as [|k]; [lia|]. cbn [firstn read_vertices_ascii skipn]. apply Hge. lia.
+      * destruct (length (t :: ts) <? np)%nat eqn:El; [discriminate|].
+        destruct (mapR (fun b => read_ascii_row b (t :: ts)) bs) as [row|] eqn:Er; cbn [rbind] in H; [|discriminate].
+        destruct (read_vertices_ascii bs np l n) as [[rows r2]|] eqn:E2; cbn [rbind] in H; [|discriminate].
+        assert (a = row :: rows /\ rest = r2) as [-> ->] by (split; congruence).
+        destruct (IH n rows r2 E2) as (c & Hc & Hr & Hlt & Hge).
+        exists (S c). split; [simpl; lia|]. split; [exact Hr|]. split; intros k Hk.
+        -- destruct k as [|k]; [reflexivity|]. cbn [firstn read_vertices_ascii]. rewrite El, Er. cbn [rbind].
+           rewrite Hlt by lia. reflexivity.
+        -- destruct k as [|k]; [lia|]. cbn [firstn read_vertices_ascii skipn]. rewrite El, Er. cbn [rbind].
+           rewrite Hge by lia. reflexivity.
+Qed.
+
+Lemma fp_faces_ascii rs ip tp : forall n st, final_parser (fun lines => faces_ascii rs ip tp lines n st).
+Proof.
+  intros n st l. revert n st. induction l as [|x l IH]; intros n st b H.
+  - destruct n; cbn [faces_ascii] in H; [|discriminate]. assert (b = ([], [])) as -> by congruence.
+    exists 0%nat. split; [simpl; lia|]. split; intros k Hk; [lia|]. rewrite firstn_nil. reflexivity.
+  - destruct n as [|n].
+    + cbn [faces_ascii] in H. assert (b = ([], [])) as -> by congruence.
+      exists 0%nat. split; [simpl; lia|]. split; intros k Hk; [lia|]. destruct k; reflexivity.
+    + cbn [faces_ascii] in H. destruct x as [|t ts].
+      * destruct (IH (S n) st b H) as (c & Hc & Hlt & Hge).
+        exists (S c). split; [simpl; lia|]. split; intros k Hk.
+        -- destruct k as [|k]; [reflexivity|]. cbn [firstn faces_ascii]. apply Hlt. lia.
+        -- destruct k as [|k]; [lia|]. cbn [firstn faces_ascii]. apply Hge. lia.
+      * destruct (face_ascii rs 0 ip tp (t :: ts) st) as [st'|] eqn:Ef; cbn [rbind] in H; [|discriminate].
+        destruct (face_out match tp with Some _ => true | None => false end st') as [[ix uv]|] eqn:Eo; cbn [rbind] in H; [|discriminate].
+        destruct (faces_ascii rs ip tp l n st') as [[ixs uvs]|] eqn:E2; cbn [rbind] in H; [|discriminate].
+        destruct (IH n st' (ixs, uvs) E2) as (c & Hc & Hlt & Hge).
+        exists (S c). split; [simpl; lia|]. split; intros k Hk.
+        -- destruct k as [|k]; [reflexivity|]. cbn [firstn faces_ascii]. rewrite Ef. cbn [rbind]. rewrite Eo. cbn [rbind].
+           rewrite Hlt by lia. reflexivity.
+        -- destruct k as [|k]; [lia|]. cbn [firstn faces_ascii]. rewrite Ef. cbn [rbind]. rewrite Eo. cbn [rbind].
+           rewrite Hge by lia. exact H.
+Qed.
+
+Theorem fp_read_body_ascii gs u h : final_parser (fun lines => read_body gs u h (BodyAscii lines)).
+Proof.
+  unfold read_body. cbv beta iota zeta.
+  apply fp_pure. intros ve.
+  apply fp_if; [apply fp_fail|]. apply fp_if; [apply fp_fail|].
+  apply fp_map.
+  destruct (h_fmt h); try apply fp_fail.
+  apply fp_pure. intros bs. apply fp_bind; [apply sp_read_vertices_ascii|]. intros rows. cbv beta iota.
+  destruct (find_last_elem _ (h_elems h) None) as [f|].
+  - apply fp_pure. intros [[rs ip] tp]. apply fp_map. apply fp_faces_ascii.
+  - apply fp_ret.
+Qed.
+
+(* ply.ReadMesh on an ASCII file cut after k complete body lines *)
+Theorem ply_ascii_lines_prefix hdr lines m :
+  read_mesh {| pf_header := hdr; pf_body := BodyAscii lines |} = Ok m ->
+  exists c, (c <= length lines)%nat /\
+    (forall k, (k < c)%nat -> read_mesh {| pf_header := hdr; pf_body := BodyAscii (firstn k lines) |} = Err EEof) /\
+    (forall k, (c <= k)%nat -> read_mesh {| pf_header := hdr; pf_body := BodyAscii (firstn k lines) |} = Ok m).
+Proof.
+  unfold read_mesh. cbn [pf_header pf_body]. destruct (parse_header hdr) as [h|e]; cbn [rbind]; [|discriminate].
+  apply (fp_read_body_ascii default_groups true h).
+Qed.
+
+(* ---- cuts at a token boundary inside a line ---- *)
+(* inside a vertex line: [j] lines of the vertex block are complete, the next one has only the tokens [p], fewer
+   than the element has properties *)
+Lemma read_vertices_ascii_partial bs np : forall lines n rows rest j p,
+  read_vertices_ascii bs np lines n = Ok (rows, rest) ->
+  (j < length lines - length rest)%nat -> p <> [] -> (length p < np)%nat ->
+  read_vertices_ascii bs np (firstn j lines ++ [p]) n = Err EEof.
+Proof.
+  induction lines as [|x l IH]; intros n rows rest j p H Hj Hp Hlen.
+  - simpl in Hj. lia.
+  - destruct n as [|n].
+    + cbn [read_vertices_ascii] in H. assert (rest = x :: l) as -> by congruence. lia.
+    + assert (Hp1 : read_vertices_ascii bs np [p] (S n) = Err EEof).
+      { cbn [read_vertices_ascii]. destruct p as [|t ts]; [congruence|].
+        replace (length (t :: ts) <? np)%nat with true by lia. reflexivity. }
+      cbn [read_vertices_ascii] in H. destruct x as [|t ts].
+      * destruct j as [|j]; [exact Hp1|]. cbn [firstn app read_vertices_ascii].
+        apply (IH (S n) rows rest j p H); try assumption.
+        assert (Hc := sp_read_vertices_ascii bs np (S n) l rows rest H). destruct Hc as (c & Hc & Hr & _).
+        simpl length in Hj. rewrite Hr, skipn_length in *. lia.
+      * destruct (length (t :: ts) <? np)%nat eqn:El; [discriminate|].
+        destruct (mapR (fun b => read_ascii_row b (t :: ts)) bs) as [row|] eqn:Er; cbn [rbind] in H; [|discriminate].
+        destruct (read_vertices_ascii bs np l n) as [[rows' r2]|] eqn:E2; cbn [rbind] in H; [|discriminate].
+        assert (rest = r2) as -> by congruence.
+        destruct j as [|j]; [exact Hp1|]. cbn [firstn app read_vertices_ascii]. rewrite El, Er. cbn [rbind].
+        rewrite (IH n rows' r2 j p E2); try assumption; [reflexivity|].
+        assert (Hc := sp_read_vertices_ascii bs np n l rows' r2 E2). destruct Hc as (c & Hc & Hr & _).
+        simpl length in Hj. rewrite Hr, skipn_length in *. lia.
+Qed.
+
+(* inside a face line: fewer tokens than the list properties of the line announce *)
+Fixpoint face_used (rs : list (sty * sty)) (toks : list tok) : nat :=
+  match rs, toks with
+  | _ :: rs', c :: rest =>
+      match tok_int c with
+      | Some v => S (Z.to_nat v + face_used rs' (skipn (Z.to_nat v) rest))
+      | None => 0
+      end
+  | _, _ => 0
+  end.
+
+Lemma face_ascii_partial rs : forall k ip tp toks st st' m,
+  face_ascii rs k ip tp toks st = Ok st' -> (m < face_used rs toks)%nat ->
+  face_ascii rs k ip tp (firstn m toks) st = Err EDeclared.
+Proof.
+  induction rs as [|r rs IH]; intros k ip tp toks st st' m H Hm.
+  - simpl in Hm. lia.
+  - cbn [face_ascii] in H. destruct toks as [|c rest]; [discriminate|].
+    cbn [face_used] in Hm.
+    destruct (tok_int c) as [v|] eqn:Ev; cbn [of_opt rbind] in H; [|discriminate].
+    destruct ((v <? 0)%Z || (Z.of_nat (length rest) <? v)%Z) eqn:Eb; [discriminate|].
+    destruct m as [|m]; [reflexivity|].
+    cbn [firstn face_ascii]. rewrite Ev. cbn [of_opt rbind].
+    destruct (le_lt_dec (Z.to_nat v) m) as [Hvm|Hvm].
+    + replace ((v <? 0)%Z || (Z.of_nat (length (firstn m rest)) <? v)%Z) with false
+        by (rewrite firstn_length; lia).
+      rewrite firstn_firstn_le by assumption.
+      destruct (if (k =? ip)%nat then _ else Ok st) as [st1|] eqn:E1 in H; cbn [rbind] in H; [|discriminate].
+      rewrite E1. cbn [rbind].
+      destruct (if nat_eqb_opt tp k then _ else Ok st1) as [st2|] eqn:E2 in H; cbn [rbind] in H; [|discriminate].
+      rewrite E2. cbn [rbind].
+      rewrite skipn_firstn_comm. apply (IH _ _ _ _ _ st' _ H). lia.
+    + replace ((v <? 0)%Z || (Z.of_nat (length (firstn m rest)) <? v)%Z) with true
+        by (rewrite firstn_length; lia).
+      reflexivity.
+Qed.
+
+Section AsciiVertexCut.
+Import String.
+(* ply.ReadMesh on an ASCII file cut at a token boundary inside a line of the vertex block: reported *)
+Theorem ply_ascii_vertex_line_cut hdr lines m h ve bs rows rest j p :
+  read_mesh {| pf_header := hdr; pf_body := BodyAscii lines |} = Ok m ->
+  parse_header hdr = Ok h ->
+  find_last_elem "vertex"%string (h_elems h) None = Some ve ->
+  build_readers false default_groups true (e_props ve) = Ok bs ->
+  read_vertices_ascii bs (List.length (e_props ve)) lines (Z.to_nat (e_count ve)) = Ok (rows, rest) ->
+  (j < List.length lines - List.length rest)%nat -> p <> [] -> (List.length p < List.length (e_props ve))%nat ->
+  read_mesh {| pf_header := hdr; pf_body := BodyAscii (firstn j lines ++ [p]) |} = Err EEof.
+Proof.
+  intros H Hh Hve Hbs Hrv Hj Hp Hlen.
+  unfold read_mesh in *. cbn [pf_header pf_body] in *. rewrite Hh in *. cbn [rbind] in *.
+  unfold read_body in *. rewrite Hve in *. cbn [of_opt rbind] in *. cbv zeta in *.
+  destruct (negb (all_scalar (e_props ve))); [discriminate|].
+  destruct (e_count ve <? 0)%Z; [discriminate|].
+  destruct (h_fmt h); cbv beta iota in *; try discriminate.
+  rewrite Hbs in *. cbn [rbind] in *.
+  rewrite (read_vertices_ascii_partial _ _ _ _ _ _ _ _ Hrv Hj Hp Hlen). reflexivity.
+Qed.
+End AsciiVertexCut.
+
+(* ================================================================== PLY header cut at a line boundary *)
+Lemma hloop_prefix ls : forall st r j, hloop ls st = Ok r ->
+  hloop (firstn j ls) st = Err EEof \/ hloop (firstn j ls) st = Ok r.
+Proof.
+  induction ls as [|l ls IH]; intros st r j H; [discriminate|].
+  destruct j as [|j]; [left; reflexivity|].
+  cbn [firstn hloop] in *. destruct (is_end l); [right; exact H|].
+  destruct (hstep l st) as [st'|]; cbn [rbind] in *; [|discriminate]. apply IH. exact H.
+Qed.
+Lemma skip_blank_firstn (r : list (list String.string)) : forall j, exists j', skip_blank (firstn j r) = firstn j' (skip_blank r).
+Proof.
+  induction r as [|x r IH]; intros j.
+  - exists 0%nat. rewrite firstn_nil. reflexivity.
+  - destruct j as [|j]; [exists 0%nat; reflexivity|].
+    destruct x as [|a x]; cbn [firstn skip_blank].
+    + apply IH.
+    + exists (S j). reflexivity.
+Qed.
+Theorem ply_header_prefix hdr h j : parse_header hdr = Ok h ->
+  parse_header (firstn j hdr) = Err EEof \/ parse_header (firstn j hdr) = Ok h.
+Proof.
+  intros H. destruct hdr as [|magic r]; [discriminate|].
+  destruct j as [|j]; [left; reflexivity|].
+  cbn [firstn parse_header] in *. destruct magic as [|m [|? ?]]; try discriminate.
+  destruct (negb (seqb m _)); [discriminate|].
+  destruct (skip_blank_firstn r j) as [j' ->].
+  destruct (skip_blank r) as [|fl r']; [discriminate|].
+  destruct j' as [|j']; [left; reflexivity|]. cbn [firstn].
+  destruct (parse_format fl) as [f|]; cbn [rbind] in *; [|discriminate].
+  destruct (hloop r' _) as [st|] eqn:E in H; cbn [rbind] in H; [|discriminate].
+  destruct (hloop_prefix r' _ st j' E) as [-> | ->]; cbn [rbind]; [left; reflexivity|right; exact H].
+Qed.
+
+(* ================================================================== no placeholders *)
+(* whatever a prefix decodes to is the decode of the complete file: every vertex, face and attribute value of an
+   Ok result is the image of bytes / tokens present in the prefix, none stands in for a missing part *)
+Theorem ply_bin_no_placeholder hdr bytes m k m' :
+  read_mesh {| pf_header := hdr; pf_body := BodyBin bytes |} = Ok m ->
+  read_mesh {| pf_header := hdr; pf_body := BodyBin (firstn k bytes) |} = Ok m' -> m' = m.
+Proof.
+  intros H H'. destruct (ply_bin_prefix hdr bytes m H) as (c & _ & Hlt & Hge).
+  destruct (le_lt_dec c k) as [Hck|Hck]; [rewrite Hge in H' by assumption|rewrite Hlt in H' by assumption]; congruence.
+Qed.
+Theorem ply_ascii_no_placeholder hdr lines m k m' :
+  read_mesh {| pf_header := hdr; pf_body := BodyAscii lines |} = Ok m ->
+  read_mesh {| pf_header := hdr; pf_body := BodyAscii (firstn k lines) |} = Ok m' -> m' = m.
+Proof.
+  intros H H'. destruct (ply_ascii_lines_prefix hdr lines m H) as (c & _ & Hlt & Hge).
+  destruct (le_lt_dec c k) as [Hck|Hck]; [rewrite Hge in H' by assumption|rewrite Hlt in H' by assumption]; congruence.
+Qed.
+
+(* ================================================================== cost: work follows the input present *)
+Section Cost.
+Import Stl.
+(* the number of record reads stl.Read's loop performs: the recursion skeleton of [read_tris] with a counter *)
+Fixpoint read_tris_steps (fuel : nat) (count : N) (l : list N) : nat :=
+  if (count =? 0)%N then 0 else
+  match fuel with
+  | O => 0
+  | S f => match gettri l with
+           | None => 1
+           | Some (_, r) => S (read_tris_steps f (count - 1) r)
+           end
+  end.
+
+Lemma tget32_length l w r : get32 l = Some (w, r) -> length l = (4 + length r)%nat.
+Proof.
+  unfold get32. destruct (take 4 l) as [[a r']|] eqn:E; cbn [bind]; [|discriminate].
+  destruct (de_le32 a); cbn [bind]; [|discriminate]. intros H. apply some_inj in H.
+  assert (r' = r) as -> by congruence. apply take_spec in E. destruct E as [-> E]. rewrite app_length. lia.
+Qed.
+Lemma tget16_length l w r : get16 l = Some (w, r) -> length l = (2 + length r)%nat.
+Proof.
+  unfold get16. destruct (take 2 l) as [[a r']|] eqn:E; cbn [bind]; [|discriminate].
+  destruct (de_le16 a); cbn [bind]; [|discriminate]. intros H. apply some_inj in H.
+  assert (r' = r) as -> by congruence. apply take_spec in E. destruct E as [-> E]. rewrite app_length. lia.
+Qed.
+Lemma getvec_length l v r : getvec l = Some (v, r) -> length l = (12 + length r)%nat.
+Proof.
+  unfold getvec. destruct (get32 l) as [[x r1]|] eqn:E1; cbn [bind]; [|discriminate].
+  destruct (get32 r1) as [[y r2]|] eqn:E2; cbn [bind]; [|discriminate].
+  destruct (get32 r2) as [[z r3]|] eqn:E3; cbn [bind]; [|discriminate].
+  intros H. apply some_inj in H. assert (r3 = r) as -> by congruence.
+  apply tget32_length in E1, E2, E3. lia.
+Qed.
+Lemma gettri_length l t r : gettri l = Some (t, r) -> length l = (50 + length r)%nat.
+Proof.
+  unfold gettri. destruct (getvec l) as [[n r1]|] eqn:E1; cbn [bind]; [|discriminate].
+  destruct (getvec r1) as [[a r2]|] eqn:E2; cbn [bind]; [|discriminate].
+  destruct (getvec r2) as [[b r3]|] eqn:E3; cbn [bind]; [|discriminate].
+  destruct (getvec r3) as [[c r4]|] eqn:E4; cbn [bind]; [|discriminate].
+  destruct (get16 r4) as [[at_ r5]|] eqn:E5; cbn [bind]; [|discriminate].
+  intros H. apply some_inj in H. assert (r5 = r) as -> by congruence.
+  apply getvec_length in E1, E2, E3, E4. apply tget16_length in E5. lia.
+Qed.
+
+(* the counter counts exactly the records of a successful read ... *)
+Lemma read_tris_steps_ok fuel : forall count l ts, read_tris fuel count l = Some ts -> read_tris_steps fuel count l = length ts.
+Proof.
+  induction fuel as [|f IH]; intros count l ts H; cbn [read_tris read_tris_steps] in *.
+  - destruct (count =? 0)%N; [|discriminate]. apply some_inj in H. subst. reflexivity.
+  - destruct (count =? 0)%N; [apply some_inj in H; subst; reflexivity|].
+    destruct (gettri l) as [[t r]|]; cbn [bind] in H; [|discriminate].
+    destruct (read_tris f (count - 1) r) as [ts'|] eqn:E; cbn [bind] in H; [|discriminate].
+    apply some_inj in H. subst. simpl. f_equal. apply IH. exact E.
+Qed.
+(* ... and is bounded by the input present, whatever count the header announces: the loop stops at the first
+   missing record *)
+Theorem stl_read_cost fuel : forall count l, (50 * read_tris_steps fuel count l <= length l + 50)%nat.
+Proof.
+  induction fuel as [|f IH]; intros count l; cbn [read_tris_steps].
+  - destruct (count =? 0)%N; lia.
+  - destruct (count =? 0)%N; [lia|].
+    destruct (gettri l) as [[t r]|] eqn:E; [|lia].
+    apply gettri_length in E. specialize (IH (count - 1)%N r). lia.
+Qed.
+End Cost.
+
+Section SplatCost.
+Import Splat.
+Fixpoint read_raw_steps (fuel : nat) (l : list N) : nat :=
+  match l with
+  | [] => 0
+  | _ => match fuel with
+         | O => 0
+         | S f => match get_raw l with
+                  | None => 1
+                  | Some (_, rest) => S (read_raw_steps f rest)
+                  end
+         end
+  end.
+Theorem splat_read_cost fuel : forall l, (32 * read_raw_steps fuel l <= length l + 32)%nat.
+Proof.
+  induction fuel as [|f IH]; intros l; destruct l as [|x l]; cbn [read_raw_steps]; try lia.
+  destruct (get_raw (x :: l)) as [[r rest]|] eqn:E; [|lia].
+  apply sget_raw_length in E. specialize (IH rest). lia.
+Qed.
+End SplatCost.
